@@ -51,7 +51,7 @@ def bases(tier: str, seed: int) -> list[dict[str, Any]]:
                 out.append(dict(id=k, reversed=rev, multi=multi, cont=cont, dt=600, ns=8, frames=[-2, 1, 3, 6, 9, 11], files=[2, 1, 3] if multi else [6], rel_steps=[0, 2, 5], freq=2))
                 k += 1
     if tier == "thorough":
-        for i in range(60):
+        for i in range(400):
             rng = C.rng_for(seed, 20, i)
             ns = int(rng.integers(3, 15))
             fr = [-int(rng.integers(0, 4))]
